@@ -169,6 +169,28 @@ def check_divisions(P, R, roots, modules, rule="GUARD.div"):
                     continue
                 seen[k] = (fkey, node, den_v, track_s, num_v)
     n_sites = 0
+    # alternatives: count divisions of one function with the same type form that sit in mutually exclusive arms of a test
+    from ..cfg import guards_of
+    alt_of = {}
+    by_fn = {}
+    for k_, (fk, node, den_v, track_s, num_v) in seen.items():
+        by_fn.setdefault((fk, type_canon(num_v, den_v)), []).append((k_, node))
+    for (fk, cn), sites in by_fn.items():
+        if len(sites) < 2:
+            continue
+        f_ = P.func(fk)
+        du_ = get_defuse(f_, P)
+        gs = {}
+        for k_, node in sites:
+            try:
+                gs[k_] = {(id(t_), p_) for t_, p_ in guards_of(du_.stmt_of(node))}
+            except Exception:
+                gs[k_] = set()
+        for i, (k1, n1) in enumerate(sites):
+            for k2, n2 in sites[i + 1:]:
+                if any((t_, not p_) in gs[k2] for t_, p_ in gs[k1]):
+                    root = alt_of.get(k1) or alt_of.get(k2) or f"{fk}#{cn}#{min(n1.lineno, n2.lineno)}"
+                    alt_of[k1] = alt_of[k2] = root
     for (fkey, txt), (fk, node, den_v, track_s, num_v) in sorted(seen.items()):
         f = P.func(fk)
         du = get_defuse(f, P)
@@ -179,7 +201,7 @@ def check_divisions(P, R, roots, modules, rule="GUARD.div"):
             if masked_by_where(P, f, du, node):
                 R.ok(rule, fk, what, "count denominator; G3: quotient only used as the non-selected arm of np.where on the same test", node.lineno)
             else:
-                R.violation(rule, fk, what, f"division by a per-component/per-cluster count ({detail}) that is neither floored (np.clip / np.where / np.maximum / + positive scalar) nor masked: a component or cluster that receives no data gives 0/0 = NaN parameters", node.lineno, canon=type_canon(num_v, den_v))
+                R.violation(rule, fk, what, f"division by a per-component/per-cluster count ({detail}) that is neither floored (np.clip / np.where / np.maximum / + positive scalar) nor masked: a component or cluster that receives no data gives 0/0 = NaN parameters", node.lineno, canon=type_canon(num_v, den_v), alt=alt_of.get((fkey, txt)))
         else:
             R.ok(rule, fk, what, f"denominator class: {cls} ({detail})", node.lineno, nontrivial=cls in ("floored",))
     return n_sites
